@@ -3,6 +3,7 @@ import CardVerif.Model.Pot
 import CardVerif.Spec.SidePot
 import Driver.Poker
 import Driver.Evals
+import Driver.Gin
 open Lean CardVerif CardVerif.Codec
 
 namespace CardVerif.Driver
@@ -44,6 +45,10 @@ def handle (j : Json) : P Json := do
   | "settle" => opSettle j
   | "poker" => opPoker j
   | "rank5" => opRank5 j
+  | "gin" => opGin j
+  | "melds" => opMelds j
+  | "layoff" => opLayoff j
+  | "ricky" => opRicky j
   | op => throw s!"unknown op {op}"
 
 end CardVerif.Driver
